@@ -15,6 +15,10 @@ class QuaHoldList(HoldList[QuaHold], QuaNoteList[QuaHold]):
     @staticmethod
     def from_yaml(dicts: List[Dict[str]]) -> QuaHoldList:
         df = pd.DataFrame(dicts)
+        # Quaver omits a StartTime of 0
+        if "StartTime" not in df:
+            df["StartTime"] = 0
+        df["StartTime"] = df["StartTime"].fillna(0)
         df["EndTime"] -= df["StartTime"]
         df = df.rename(
             dict(
